@@ -274,6 +274,10 @@ def render_anns(anns, sep=' '):
     return sep.join(render_annotation(a) for a in anns)
 
 
+# parentheses that hold nothing or only white space (of any kind), alone and next to real annotations
+EMPTY_PARENS = ['( )', '(  )', '(\t)', '()', '(( ))', '( ) (skip)', '(skip) ( )', '(\xa0)', '(\u2028)', '( \t )', '(in) ( ) (out)']
+
+
 def mutate_text(rng, s, extra=''):
     """grammar-aware one-step mutation of a piece of comment text"""
     alphabet = '()(): <>=@*/.-_\t' + extra
@@ -299,6 +303,8 @@ def mutate_text(rng, s, extra=''):
         j = rng.randint(0, len(s))
         a, b = min(i, j), max(i, j)
         return s[:a] + s[a:b] + s[a:b] + s[b:]
+    if rng.random() < 0.3:
+        return s[:i] + rng.choice(EMPTY_PARENS) + s[i:]
     return s[:i] + rng.choice(['((', '))', '()', '( )', ') (', '(in-out)', '(attribute a b)', '(attribute a)',
                                '(attribute)', '(type <utf8>)', '(in) (in)', '(transfer full=1)', ' : ', '::']) + s[i:]
 
@@ -309,6 +315,10 @@ def gen_field_string(rng, voc):
     anns = gen_wf_anns(rng, voc)
     sep = rng.choice([' ', ' ', ' ', '', '  ', '\t'])
     s = render_anns(anns, sep)
+    if rng.random() < 0.06:
+        # white-space-only parentheses at annotation position
+        e = rng.choice(EMPTY_PARENS)
+        s = rng.choice([e + sep + s, s + sep + e, e])
     r = rng.random()
     if r < 0.5:
         s += rng.choice([': ', ':', ' ', ' : ', '']) + rng.choice(
